@@ -51,3 +51,66 @@ fn expect__prefix_contract() {
         }
     }
 }
+
+/// expect's contract for EVERY ASCII input of NI bytes and EVERY ASCII literal of NS
+/// bytes: Ok(rest) <=> the input starts with the literal, rest = input minus the
+/// literal; otherwise Err((ExpectedLiteral(literal), input)).  This is the contract
+/// that `common::expect__contract` implements for the lexers' obligations.
+fn expect_contract<const NI: usize, const NS: usize>() {
+    let mut ibuf = [0u8; NI];
+    let mut i = 0;
+    while i < NI {
+        ibuf[i] = any_ascii();
+        i += 1;
+    }
+    let mut sbuf = [0u8; NS];
+    let mut i = 0;
+    while i < NS {
+        sbuf[i] = any_ascii();
+        i += 1;
+    }
+    let input = ascii_str(&ibuf, NI);
+    // the literal only has to outlive the call
+    let lit: &'static str = unsafe { std::mem::transmute::<&str, &'static str>(ascii_str(&sbuf, NS)) };
+    let mut starts = NI >= NS;
+    let mut i = 0;
+    while i < NS && i < NI {
+        if ibuf[i] != sbuf[i] {
+            starts = false;
+        }
+        i += 1;
+    }
+    let r = expect(input, lit);
+    match &r {
+        Ok(rest) => {
+            assert!(starts, "Ok only when the input starts with the literal");
+            assert!(is_suffix_at(input, rest, NS), "rest is the input minus the literal");
+            kani::cover!(true, "literal found");
+        }
+        Err((kind, at)) => {
+            assert!(!starts, "a present literal is found");
+            assert!(is_suffix_at(input, at, 0), "input untouched on failure");
+            assert!(matches!(kind, LexErrorKind::ExpectedLiteral(l) if std::ptr::eq(l.as_ptr(), lit.as_ptr()) && l.len() == NS), "the error names the expected literal");
+            kani::cover!(true, "literal missing");
+        }
+    }
+    std::mem::forget(r);
+}
+
+#[kani::proof]
+#[kani::unwind(5)]
+fn expect__contract_in3_lit2() {
+    expect_contract::<3, 2>()
+}
+
+#[kani::proof]
+#[kani::unwind(4)]
+fn expect__contract_in2_lit1() {
+    expect_contract::<2, 1>()
+}
+
+#[kani::proof]
+#[kani::unwind(4)]
+fn expect__contract_in1_lit2() {
+    expect_contract::<1, 2>()
+}
